@@ -181,7 +181,7 @@ def kindProved : FK → Bool
   | .uint _ | .ttl | .algo | .name | .ip4 | .ip6 | .salt | .oct16 | .eui _ | .hex16x4 | .nsap => true
   | .cstr _ _ _ => true
   | .rdtype | .algoName | .scheme | .ctype | .keyFlags | .keyProto | .sigtime | .b32hex => true
-  | .hexOne | .b64One | .nameRaw | .rcode => true
+  | .hexOne | .b64One | .nameRaw | .rcode | .gpos _ => true
 
 /-- the record types whose every field kind is covered by `parseText_printText` -/
 def provedTypes : List String :=
@@ -190,21 +190,23 @@ def provedTypes : List String :=
    "TLSA", "SMIMEA", "SSHFP", "ZONEMD", "DNSKEY", "CDNSKEY", "DHCID", "OPENPGPKEY", "BRID", "HHIT", "L32", "NSEC3PARAM",
    "CH-A", "EUI48", "EUI64", "NID", "L64", "NSAP",
    "CERT", "DSYNC", "KEY", "RRSIG", "SIG", "NSEC", "CSYNC", "NSEC3",
-   "HIP", "TKEY", "TSIG", "IPSECKEY", "AMTRELAY", "APL", "WKS"]
+   "HIP", "TKEY", "TSIG", "IPSECKEY", "AMTRELAY", "APL", "WKS", "GPOS"]
 
 /-- every type in `provedTypes` has a schema made of proved field kinds only (complete finite table, by `decide`) -/
 theorem provedTypes_covered :
     ∀ t ∈ provedTypes, ∃ sch, schemaOf t = some sch ∧ sch.fields.all kindProved = true := by
   decide
 
-/-- the record types for which "accepted from text ⇒ encodable to wire" is proved: every schema type whose wire form
-the model has (all but HIP, TKEY, TSIG, IPSECKEY, AMTRELAY, APL, WKS, whose `to_wire` is checked by the oracle only) -/
+/-- the record types for which "accepted from text ⇒ encodable to wire" is proved: every schema type except HIP and TKEY
+(their `to_wire` packs the key / other-data length into 16 bits, which `from_text` does not bound — a known finding with
+witnesses `corpus/C05/hip-key-65536-octets.json`, `tkey-key-65536-octets.json`) and AMTRELAY (its two header octets are not
+in schema order; oracle only) -/
 def encodableTypes : List String :=
   ["A", "AAAA", "NS", "CNAME", "PTR", "DNAME", "NSAP-PTR", "MX", "AFSDB", "RT", "KX", "LP", "PX", "SRV", "RP", "SOA",
    "TXT", "SPF", "AVC", "NINFO", "RESINFO", "WALLET", "HINFO", "X25", "ISDN", "NAPTR", "CAA", "URI", "DS", "DLV", "CDS",
    "TLSA", "SMIMEA", "SSHFP", "ZONEMD", "DNSKEY", "CDNSKEY", "DHCID", "OPENPGPKEY", "BRID", "HHIT", "L32", "NSEC3PARAM",
    "CH-A", "EUI48", "EUI64", "NID", "L64", "NSAP",
-   "CERT", "DSYNC", "KEY", "RRSIG", "SIG", "NSEC", "CSYNC", "NSEC3"]
+   "CERT", "DSYNC", "KEY", "RRSIG", "SIG", "NSEC", "CSYNC", "NSEC3", "GPOS", "TSIG", "IPSECKEY", "APL", "WKS"]
 
 theorem encodableTypes_schemas :
     ∀ t ∈ encodableTypes, ∃ sch, schemaOf t = some sch ∧ schemaEncodable t sch = true := by
@@ -315,5 +317,13 @@ example : WfText "APL" {} {} [] (some (.apl [(1, true, [192, 168, 0, 0], 16),
 example : WfText "WKS" {} {} [] (some (.wks [10, 0, 0, 1] 6 [0, 0, 0, 0x40])) := by
   refine ⟨_, rfl, trivial, ⟨⟨10, 0, 0, 1, rfl, by decide, by decide, by decide, by decide⟩, by decide, by decide, by decide, by decide⟩,
     by decide, rfl⟩
+
+/-- `GPOS -32.6882 116.8652 10.0`, and the latitude bound: `90.000000000000007` (< 90 + 2^-47) is accepted because
+`float()` rounds it to 90.0, `90.00000000000001` is not -/
+example : WfText "GPOS" {} {} [.b [45, 51, 50, 46, 54, 56, 56, 50], .b [49, 49, 54, 46, 56, 54, 53, 50], .b [49, 48, 46, 48]] none := by
+  refine ⟨_, rfl, ⟨⟨by decide, by decide⟩, ⟨⟨by decide, by decide⟩, ⟨⟨by decide, by decide⟩, trivial⟩⟩⟩, trivial, by decide, rfl⟩
+
+example : gposCheck (some (90, 47)) [57, 48, 46, 48, 48, 48, 48, 48, 48, 48, 48, 48, 48, 48, 48, 48, 48, 55] = true ∧
+    gposCheck (some (90, 47)) [57, 48, 46, 48, 48, 48, 48, 48, 48, 48, 48, 48, 48, 48, 48, 48, 49] = false := by decide
 
 end C05
